@@ -588,8 +588,18 @@ def openSt (db : Db) (r : Roots) : Option St :=
   (loadList stk.relats).bind fun relats =>
   some { db := db, t := { acct := acct, val := val, stk := stk }, index := index, stat := stat, queue := queue, relats := relats }
 
-/-- StateDB.Copy under value semantics -/
-def copy (s : St) : St := s
+/-- the live account objects `StateDB.Copy` does not take along: it copies the objects in `journal.dirties`,
+`stateObjectsPending` and `stateObjectsDirty` only.  A clean object that is not deleted is re-read from the trie by the
+copy (unobservable: cache coherence), so the model keeps it; a clean *deleted* object is gone in the copy — together
+with whatever balance was credited to it after it self-destructed, which `CreateAccount` would carry over
+(`createObject` takes the deleted object as `prev`). -/
+def dropKey (s : St) (a : Bytes) : Bool :=
+  match aget s.accts a with
+  | some o => o.deleted && !s.acctJ.contains a && !s.acctP.contains a && !s.acctU.contains a
+  | none => false
+
+/-- StateDB.Copy: value semantics, except for the clean deleted objects the real copy forgets -/
+def copy (s : St) : St := { s with accts := s.accts.filter (fun kv => !dropKey s kv.1) }
 
 /-! ### operations -/
 
